@@ -34,6 +34,7 @@ PARTIAL = [
     "the statement is refuted: walk_holding_guard_can_deadlock (W = 1, 2 by evaluation; _W4; _any_W: every W >= 1 with one dropper per worker, proved) and reproduced on the real engine (corpus/C02-F60).",
 ]
 ASSUMPTIONS = [
+    "state-invariant oracle (no model run exists for these histories): at every quiescent point named in the harness (after every session and after every concurrent round of the engine / walk / multi-epoch families, all tasks joined; runs with the hook sink installed are not dumped) the digest of every key of the real engine (eng::state_digest through the read-only hook qbice::verif::dump_node) is judged (a) in the harness by three model-free consequences of the engine invariant: every node verified in the current epoch stores the from-scratch value for the committed inputs, the backward-edge sets are exactly the inverse of the recorded dependencies, the firewall set of a verified node is the union over its dependencies of ({d} if d is a firewall else tfc(d)) [sigs C02:state-invariant:value|back|tfc], and (b) by the Lean checker of the PROVED invariant (`drv_engine inv` on inv_ops.txt: `inv FAIL <clause> <key>` = oracle failure C02:state-invariant:inv:<clause>); acyclic programs of at most 64 keys; programs with Yield nodes are judged by (a) only",
     "CJ (Model/ChunkJoin.lean, Props/C02Join.lean): the fold over the chunk results of an unordered group is isolated from the sequential model "
     "(Model/Engine.lean repairQuery accumulates `needTfc` the same way, one member after the other); chunk_join_order_independent covers runs "
     "in which no chunk asks for a recompute (a recompute discards the flag); that the real loop is the OR-ing fold is checked by the multi-epoch "
@@ -104,6 +105,11 @@ def _shard(args):
     out = os.path.join(ctx.work, f"s{idx}")
     os.makedirs(out, exist_ok=True)
     cmd = [binp, "--seed", str(seed), "--tier", ctx.tier, "--out", out]
+    # state dumps after every session and every concurrent round (all tasks joined) of the engine / walk / multi-epoch
+    # families (acyclic programs of <= 64 keys): judged in the harness by the state-invariant oracle (C02:state-invariant:*)
+    # and written to inv_ops.txt for the Lean checker of the proved engine invariant (`drv_engine inv`)
+    state = not os.environ.get("VERIF_NO_STATE_TIE")
+    if state: cmd += ["--state"]
     if n: cmd += ["--n", str(n)]
     if ctx.replay and idx == 0:
         cmd += ["--replay", ctx.replay]
@@ -121,7 +127,16 @@ def _shard(args):
     rc, err = vlib.run_driver(DRIVER, os.path.join(out, "ops.txt"), os.path.join(out, "model.txt"))
     if rc != 0:
         return {"dir": out, "error": f"driver exit {rc}: {err[-400:]}"}
-    return {"dir": out, "driver_stats": err.strip(), "retried": retried}
+    inv = None
+    if state:
+        from props import engine_common as ec
+        inv = ec.inv_check(out, "C02")
+        if inv is not None and "error" in inv: return {"dir": out, "error": inv["error"]}
+        if inv is not None and not inv["fails"]:
+            for f in ("inv_ops.txt", "inv_out.txt"):
+                try: os.remove(os.path.join(out, f))
+                except OSError: pass
+    return {"dir": out, "driver_stats": err.strip(), "retried": retried, "inv": inv}
 
 
 def _read(p):
@@ -154,6 +169,11 @@ def run(ctx, boost=1):
         if not ok:
             res.disagreements.append({"line": 0, "op": "cargo build", "impl": log[-1500:], "model": ""})
             return res
+    if not os.environ.get("VERIF_NO_STATE_TIE"):
+        okb, logb, _ = vlib.lean_build(["drv_engine"])      # the checker of the proved engine invariant (`drv_engine inv`)
+        if not okb:
+            res.disagreements.append({"line": 0, "op": "lake build drv_engine", "impl": logb[-1500:], "model": ""})
+            return res
     shards = 1 if ctx.replay else ctx.jobs
     n = int(os.environ.get("VERIF_C02_N", "0")) * boost
     jobs = [(ctx, binp, ctx.seed * 1000 + i, n, i) for i in range(shards)]
@@ -173,6 +193,9 @@ def run(ctx, boost=1):
         n_traces_rep += rep.get("traces", 0); n_events_rep += rep.get("trace_events", 0)
         if len(res.samples) < 6: res.samples += rep["samples"][:1]
         res.oracle_failures += rep["oracle_failures"]
+        if o.get("inv"):
+            for k, v in o["inv"]["counts"].items(): dist["state_dumps_checked_by_drv_engine_inv:" + k] = dist.get("state_dumps_checked_by_drv_engine_inv:" + k, 0) + v
+            res.oracle_failures += o["inv"]["fails"][:3]
         stats.append(o.get("driver_stats", ""))
         ops, imp, mod = _read(os.path.join(d, "ops.txt")), _read(os.path.join(d, "impl.txt")), _read(os.path.join(d, "model.txt"))
         res.lines_compared += len(ops)
